@@ -87,6 +87,9 @@ impl Ctx {
     pub fn bound(&self, name: &str, v: Value) {
         self.bounds.lock().unwrap().insert(name.to_string(), v);
     }
+    pub fn exhaustive_note(&self, s: &str) {
+        self.notes.lock().unwrap().push(format!("enumerated completely: {}", s));
+    }
     pub fn note(&self, s: &str) {
         self.notes.lock().unwrap().push(s.to_string());
     }
